@@ -204,6 +204,30 @@ pub fn run(ctx: &Ctx) -> Rep {
             for &(_, _, m) in NAMED_RANK_MASKS.iter() {
                 v.push(m);
             }
+            // suit-lane structured sets: each 13-bit suit lane is empty, full, a seeded pattern r, its complement
+            // !r or one bit (5^4 combinations x seeded r), optionally with one more card bit or overflow bits on top
+            {
+                let mut rng = Rng::new(seed, 0xC14_1A00);
+                let rounds = ctx.pick(2, 60, 600);
+                for _ in 0..rounds {
+                    let r = rng.below(1 << 13);
+                    let choices = [0u64, 0x1FFF, r, !r & 0x1FFF, 1u64 << rng.below(13)];
+                    for code in 0..625u32 {
+                        let mut s = 0u64;
+                        let mut cc = code;
+                        for lane in 0..4 {
+                            s |= choices[(cc % 5) as usize] << (13 * lane);
+                            cc /= 5;
+                        }
+                        v.push(s);
+                        v.push(s | (1u64 << rng.below(52)));
+                        v.push(s & !(1u64 << rng.below(52)));
+                        if code % 25 == 0 {
+                            v.push(s | (1u64 << (52 + rng.below(12))));
+                        }
+                    }
+                }
+            }
             if !ctx.smoke() {
                 // every three- and four-bit value (41,664 + 635,376); every five-bit value (7,624,512) in thorough
                 for a in 0..64 {
